@@ -37,6 +37,7 @@ type specCtx struct {
 	where   string
 	extra   map[string]string // pseudo-constants (e.g. loop measure)
 	consts  map[string]constant.Value // variables of all()/any() expansions: usable as constants
+	qvars   [][2]string     // enclosing quantified variables (name, sort)
 	prevSt  *State          // loop step clauses: state at the loop head of this iteration
 	prevVar map[string]Val  // ... and the variables as they were there
 }
@@ -433,7 +434,31 @@ func (c *specCtx) field(xv sv, name string) (sv, error) {
 // representation invariant of its type (the same fact Exec.load assumes for program loads).
 func (c *specCtx) assumeLoadedWF(v Val, key string) {
 	e := c.e
-	if c.st == nil || strings.Contains(v.S, "q.") || !needsWF(v.T, e.mode) {
+	if c.st == nil || !needsWF(v.T, e.mode) {
+		return
+	}
+	if strings.Contains(v.S, "q.") {
+		// a load under quantifiers: the representation invariant holds for every value of the
+		// bound variables; asserted as a separate (instantiable) quantified fact
+		fk := "wflq:" + v.S
+		if e.sc.funs[fk] || len(c.qvars) == 0 {
+			return
+		}
+		e.sc.funs[fk] = true
+		f := e.wfB(c.st, v, e.refBound(c.st, key))
+		if f == "true" {
+			return
+		}
+		for i := len(c.qvars) - 1; i >= 0; i-- {
+			qv := c.qvars[i]
+			if substSym(f, qv[0], "") != f {
+				f = fmt.Sprintf("(forall ((%s %s)) %s)", qv[0], qv[1], f)
+			}
+		}
+		if strings.Contains(f, "q.") && !strings.HasPrefix(f, "(forall") {
+			return
+		}
+		e.sc.assert(imp(c.st.pc, f))
 		return
 	}
 	fk := "wfl:" + v.S
@@ -1171,6 +1196,7 @@ func (c *specCtx) quant(kind string, args []ast.Expr) (sv, error) {
 	e.sc.n++
 	vn := fmt.Sprintf("q.%s.%d", sanitize(name), e.sc.n)
 	cc.bound[name] = Val{T: t, S: vn}
+	cc.qvars = append(append([][2]string(nil), c.qvars...), [2]string{vn, e.sc.sortOf(t)})
 	var rng, body sv
 	var err error
 	if len(args) >= 3 {
